@@ -1,4 +1,6 @@
 import PyYetiVerif.Lemmas.RainflowEntry
+import PyYetiVerif.Lemmas.RainflowGenC1
+import PyYetiVerif.Lemmas.RainflowGenC2
 import PyYetiVerif.Props.C05
 /-!
 # C05, second part — the source as translated, and the public entry points
@@ -55,6 +57,35 @@ theorem generated_wrapper_eq_model (available : Impl → Bool)
       PyYetiVerif.Generated.RainflowWrap.imported available = imported available :=
   ⟨RainflowGen.generated_wrapper_eq_model available rain hrain nd g up,
    RainflowGen.generated_imported_eq_model available⟩
+
+/-- the C `rainflow1` (c_rain.c as translated by harness/translate/c05_crain.py, with
+USE_FASTER_RAINFLOW_ROUTINE defined — which is what the file itself selects: `shippedFast`) computes the
+model's table: no index out of range, no unwritten cell read or returned, the pointer bumps
+`*rf++ = …` fill exactly the rows that the final slice returns -/
+theorem generated_c_rainflow1_eq_model (habs : ∀ a b : α, Ops.abs (a - b) = absd a b)
+    (pts : List α) (h1 : 1 ≤ pts.length) (fuel : Nat) (hf : pts.length ≤ fuel) :
+    (PyYetiVerif.Generated.CRain.rainflow1_fast fuel (Arr.ofList pts) (pts.length : Int)).bind Arr2.toRows
+        = some ((rainflow1 pts).map rfRow) ∧ PyYetiVerif.Generated.CRain.shippedFast = true :=
+  ⟨RainflowGen.generated_c_rainflow1_fast_eq_model habs pts h1 fuel hf, rfl⟩
+
+/-- the C `rainflow2` as translated (macro defined) computes the model's table and offsets -/
+theorem generated_c_rainflow2_eq_model (habs : ∀ a b : α, Ops.abs (a - b) = absd a b)
+    (pts : List α) (h1 : 1 ≤ pts.length) (fuel : Nat) (hf : pts.length ≤ fuel) :
+    (PyYetiVerif.Generated.CRain.rainflow2_fast fuel (Arr.ofList pts) (pts.length : Int)).bind tables
+        = some ((rainflow pts).map rfRowC, (rainflow pts).map osRow) ∧
+      PyYetiVerif.Generated.CRain.shippedFast = true :=
+  ⟨RainflowGen.generated_c_rainflow2_fast_eq_model habs pts h1 fuel hf, rfl⟩
+
+/-- hence the C and the Python counting routines, as translated, return the same tables -/
+theorem generated_c_eq_generated_py (habs : ∀ a b : α, Ops.abs (a - b) = absd a b)
+    (pts : List α) (h1 : 1 ≤ pts.length) (fuel : Nat) (hf : pts.length ≤ fuel) :
+    (PyYetiVerif.Generated.CRain.rainflow2_fast fuel (Arr.ofList pts) (pts.length : Int)).bind tables
+        = (PyYetiVerif.Generated.PyRain.rainflow2 fuel (Arr.ofList pts) (pts.length : Int)).bind tables ∧
+      (PyYetiVerif.Generated.CRain.rainflow1_fast fuel (Arr.ofList pts) (pts.length : Int)).bind Arr2.toRows
+        = (PyYetiVerif.Generated.PyRain.rainflow1 fuel (Arr.ofList pts) (pts.length : Int)).bind Arr2.toRows := by
+  rw [(generated_c_rainflow2_eq_model habs pts h1 fuel hf).1, (generated_c_rainflow1_eq_model habs pts h1 fuel hf).1,
+    generated_rainflow2_eq_model habs pts h1 fuel hf, generated_rainflow1_eq_model habs pts h1 fuel hf]
+  exact ⟨rfl, rfl⟩
 
 end generated
 
@@ -242,6 +273,12 @@ theorem intOps_abs (a b : Int) : intOps.abs (a - b) = absd a b := by
 -- the translated `_rainflow2` on (twice) the ASTM E1049 example: table and offsets of the standard
 example : letI := intOps
     (PyYetiVerif.Generated.PyRain.rainflow2 9 (Arr.ofList [-4, 2, -6, 10, -2, 6, -8, 8, -4]) 9).bind tables
+    = some ([[3, -1, 5], [4, -2, 5], [4, 2, 10], [8, 2, 5], [9, 1, 5], [8, 0, 5], [6, 2, 5]],
+            [[0, 1], [1, 2], [4, 5], [2, 3], [3, 6], [6, 7], [7, 8]]) := by decide +kernel
+
+-- the translated C `rainflow2` on the same input
+example : letI := intOps
+    (PyYetiVerif.Generated.CRain.rainflow2_fast 9 (Arr.ofList [-4, 2, -6, 10, -2, 6, -8, 8, -4]) 9).bind tables
     = some ([[3, -1, 5], [4, -2, 5], [4, 2, 10], [8, 2, 5], [9, 1, 5], [8, 0, 5], [6, 2, 5]],
             [[0, 1], [1, 2], [4, 5], [2, 3], [3, 6], [6, 7], [7, 8]]) := by decide +kernel
 
